@@ -439,3 +439,39 @@ def rule_iter_snapshot(db: ProgramDB) -> List[Instance]:
     if n == 0:
         raise AnalysisError("HashedIterable: replay of the memo not found")
     return out
+
+
+# ---------------------------------------------------------------------------------- MEMO-SOURCE-FAILURE
+def rule_memo_source_failure(db: ProgramDB) -> List[Instance]:
+    """The memoising wrapper pulls from a one-shot source.  A source that is a generator over a sub-query (a domain given
+    as an expression) is finished for good when user code raises inside it; from then on it looks exhausted, and the memo
+    - the elements pulled before the exception - passes for the whole domain.  The pull therefore has to sit under an
+    exception handler that records the failure (so that the source can be re-created), or the wrapper must not keep a
+    source that raised."""
+    out = []
+    hi = db.cls("HashedIterable")
+    n = 0
+    for m in hi.methods.values():
+        if not m.is_generator:
+            continue
+        for loop in [x for x in own_nodes(m.node) if isinstance(x, ast.For) and isinstance(x.iter, ast.Attribute)
+                     and x.iter.attr == "iterable"]:
+            n += 1
+            # enclosing try statements with a handler that does more than re-raise
+            handlers = []
+            p = db.parent(loop)
+            while p is not None and p is not m.node:
+                if isinstance(p, ast.Try):
+                    for h in p.handlers:
+                        if any(isinstance(x, (ast.Assign, ast.AugAssign, ast.Call)) for st in h.body for x in ast.walk(st)):
+                            handlers.append(h)
+                p = db.parent(p)
+            ok = bool(handlers)
+            out.append(inst("MEMO-SOURCE-FAILURE", HOLDS if ok else VIOLATION, m, f"{m.short}[a raising source looks exhausted]",
+                            "a failure of the source is recorded by an exception handler around the pull" if ok else
+                            "nothing records that the source raised: a generator that raised is finished, the next pass over the "
+                            "wrapper replays the memo and finds the source exhausted, so the elements pulled before the exception "
+                            "pass for the whole domain", line=loop.lineno))
+    if n == 0:
+        raise AnalysisError("HashedIterable: no generator loop over self.iterable")
+    return out
